@@ -250,7 +250,8 @@ def race_blocks(logpaths):
     for b in blocks:
         # key: first two ego frames (function names), line numbers stripped
         frames = [ln.strip() for ln in b.splitlines() if "github.com/tucats/ego/" in ln and "(" in ln]
-        frames = [f.split("(")[0] for f in frames if "verifh" not in f][:2]
+        # keep the whole function name, e.g. symbols.(*SymbolTable).Get: strip only the trailing "(...)" argument list
+        frames = [f.rsplit("(", 1)[0].replace("github.com/tucats/ego/internal/", "") for f in frames if "verifh" not in f][:2]
         key = "race:" + "|".join(frames) if frames else "race:unknown"
         dedup.setdefault(key, b)
     return len(blocks), dedup
